@@ -22,6 +22,7 @@ type ProdGen struct {
 	G *Gen
 
 	nearN int
+	depN  int
 }
 
 func (p *ProdGen) bodyOfLen(n int) []byte { return structured(n, byte(n)) }
@@ -98,10 +99,24 @@ func (p *ProdGen) ValidDeposit(withCaller bool, amtMode int) sdk.Msg {
 	}
 	dst := p.dstWithMessenger()
 	mr := Structured32(byte(r.Intn(250)))
-	if !withCaller {
-		return &ct.MsgDepositForBurn{From: from, Amount: mkInt(amt), DestinationDomain: dst, MintRecipient: mr, BurnToken: p.E.MintDenom()}
+	bt := p.E.MintDenom()
+	p.depN++
+	switch p.depN % 16 { // the burn token is matched without regard to (ASCII) letter case
+	case 5:
+		bt = strings.ToUpper(bt)
+	case 13:
+		b := []byte(bt)
+		for i := range b {
+			if i%2 == p.depN/16%2 && b[i] >= 'a' && b[i] <= 'z' {
+				b[i] -= 32
+			}
+		}
+		bt = string(b)
 	}
-	return &ct.MsgDepositForBurnWithCaller{From: from, Amount: mkInt(amt), DestinationDomain: dst, MintRecipient: mr, BurnToken: p.E.MintDenom(), DestinationCaller: Structured32(byte(1 + r.Intn(250)))}
+	if !withCaller {
+		return &ct.MsgDepositForBurn{From: from, Amount: mkInt(amt), DestinationDomain: dst, MintRecipient: mr, BurnToken: bt}
+	}
+	return &ct.MsgDepositForBurnWithCaller{From: from, Amount: mkInt(amt), DestinationDomain: dst, MintRecipient: mr, BurnToken: bt, DestinationCaller: Structured32(byte(1 + r.Intn(250)))}
 }
 
 // CraftedBurnSend: a user sends, to the destination's token messenger, a body laid out like a burn
